@@ -36,6 +36,27 @@ ssize_t getrandom(void *buf, size_t len, unsigned int flags) {
     return (ssize_t)len;
 }
 
+/* Wall clock and pid as the proc macro (and rustc) see them: VERIF_CLOCK_OFFSET_S shifts
+ * CLOCK_REALTIME by that many seconds, VERIF_PID replaces the pid. Unset = real values. */
+#include <time.h>
+#include <unistd.h>
+#include <sys/syscall.h>
+
+int clock_gettime(clockid_t clk, struct timespec *ts) {
+    long r = syscall(SYS_clock_gettime, clk, ts);
+    if (r == 0 && clk == CLOCK_REALTIME && ts) {
+        const char *e = getenv("VERIF_CLOCK_OFFSET_S");
+        if (e) ts->tv_sec += strtoll(e, 0, 10);
+    }
+    return (int)r;
+}
+
+pid_t getpid(void) {
+    const char *e = getenv("VERIF_PID");
+    if (e && *e) return (pid_t)strtol(e, 0, 10);
+    return (pid_t)syscall(SYS_getpid);
+}
+
 int getentropy(void *buf, size_t len) {
     return getrandom(buf, len, 0) == (ssize_t)len ? 0 : -1;
 }
